@@ -14,7 +14,7 @@ from ECAgent.Environments import GridWorld, PositionComponent
 
 from simkit.stepgate import StepGate
 
-from .worlds import RefWorld, gen_world, get_pos, make_world
+from .worlds import RefWorld, agent_class, gen_world, get_pos, make_world
 
 PROPERTY = "C04"
 QUICK_RUNS = 16000
@@ -30,7 +30,7 @@ COMPONENTS = {"real": ["ECAgent.Core.Environment add_agent / remove_agent / get_
                        "SpaceWorld / DiscreteWorld / GridWorld / LineWorld add_agent / remove_agent",
                        "SystemManager component pools (observed)"],
               "stub": ["agents and component classes are harness-defined"]}
-PROBES = ["overlapping_or_unfinished_iterations", "dup_same_object", "dup_other_object", "unknown_remove", "unknown_strict_lookup", "oob_x_lo", "oob_x_hi",
+PROBES = ["agent_class_slotted_or_with_own_attributes", "overlapping_or_unfinished_iterations", "dup_same_object", "dup_other_object", "unknown_remove", "unknown_strict_lookup", "oob_x_lo", "oob_x_hi",
           "oob_y_lo", "oob_y_hi", "oob_z_lo", "oob_z_hi", "oob_far", "reject_on_empty_environment", "remove_from_middle",
           "readd_after_remove", "plain_env", "spatial_env", "model_lifecycle_op", "caller_scrambles_listing", "oob_fractional_in_grid", "environment_without_model",
           "agent_is_an_environment", "nested_population_changed_while_resident", "ops_from_inside_a_timestep", "deprecated_camelcase_spelling", "agent_constructed_for_another_model",
@@ -129,6 +129,10 @@ def generate(rng, tier):
         j_ = rng.randint(i_ + 1, len(ops))
         ops.insert(j_, {"op": "leave_step"})
         ops.insert(i_, {"op": "enter_step"})
+    if rng.random() < 0.2:
+        for p_ in pool:
+            if rng.random() < 0.5:
+                p_["cls"] = rng.choice(["slotted", "ownattrs"])
     return {"world": world, "pool": pool, "ops": ops, "walks": rng.random() < 0.3}
 
 
@@ -159,11 +163,13 @@ def execute(sc, ctx):
             a = GridWorld(m, 2, 2, id=spec["id"]) if nest["kind"] == "grid" else Environment(m, id=spec["id"])
             ctx.probe("agent_is_an_environment")
         else:
-            a = Agent(spec["id"], m)
+            a = agent_class(spec.get("cls"))(spec["id"], m)
+            if spec.get("cls"):
+                ctx.probe("agent_class_slotted_or_with_own_attributes")
         home = m
         if spec.get("foreign") and not sc["world"].get("orphan") and not isinstance(a, Environment):
             home = other_model
-            a = Agent(spec["id"], home)
+            a = agent_class(spec.get("cls"))(spec["id"], home)
             ctx.probe("agent_constructed_for_another_model")
         for c in spec["comps"]:
             a.add_component(KT[c % 3](a, home))
